@@ -8,7 +8,7 @@ namespace Sm.Sketch
 theorem plan_merge (nm : List Char) (files : List SeqFile)
     (h : (files.flatMap (fun f => f.records.map Prod.snd)) ≠ []) :
     plan (.merge nm) files =
-      [⟨some nm, recordedFilename (lastName files), files.flatMap (fun f => f.records.map Prod.snd)⟩] := by
+      [⟨some nm, recordedFilename (lastName files), files.flatMap (fun f => f.records.map Prod.snd), lastName files⟩] := by
   unfold plan
   simp only []
   rw [if_neg]
@@ -22,7 +22,7 @@ theorem plan_merge_empty (nm : List Char) (files : List SeqFile)
   simpa using h
 
 theorem unitsOfFile_singleton (f : SeqFile) :
-    unitsOfFile true false f = f.records.map (fun r => ⟨some r.1, recordedFilename f.name, [r.2]⟩) := by
+    unitsOfFile true false f = f.records.map (fun r => ⟨some r.1, recordedFilename f.name, [r.2], f.name⟩) := by
   unfold unitsOfFile
   cases f.records with
   | nil => rfl
@@ -31,7 +31,7 @@ theorem unitsOfFile_singleton (f : SeqFile) :
 theorem unitsOfFile_perFile (nff : Bool) (f : SeqFile) (first : List Char × List Nat)
     (rest : List (List Char × List Nat)) (h : f.records = first :: rest) :
     unitsOfFile false nff f =
-      [⟨if nff then some first.1 else none, recordedFilename f.name, f.records.map Prod.snd⟩] := by
+      [⟨if nff then some first.1 else none, recordedFilename f.name, f.records.map Prod.snd, f.name⟩] := by
   unfold unitsOfFile
   rw [h]
   simp
